@@ -214,12 +214,7 @@ func (b *Builder) freeEnd(min uint64) uint64 {
 	if b.SharedEnds {
 		return min
 	}
-	for w := min; ; w++ {
-		if len(b.L.Expiry[w]) == 0 && !b.claimedEnds[w] {
-			b.claimedEnds[w] = true
-			return w
-		}
-	}
+	return b.Env.claimEnd(min)
 }
 
 // V1Form creates a v1 contract between renter and host funded by the renter.
